@@ -49,9 +49,11 @@ func (f *Frame) repeatCall(st *State, cl Val, pos token.Pos, label string) {
 	for _, k := range names {
 		vc.havoc(st, k)
 	}
-	a := vc.fresh("A", SInt)
-	vc.fact(Ge(a, pre.alloc))
-	st.alloc = a
+	if ms.alloc {
+		a := vc.fresh("A", SInt)
+		vc.fact(Ge(a, pre.alloc))
+		st.alloc = a
+	}
 	f.closedFacts(st, names)
 	if ms.alloc {
 		f.kindFacts(st, pre.alloc, ms)
